@@ -13,7 +13,7 @@ CHECKS = {
    ref='7/C01'),
  'C02': dict(
    text='Theorems for every term list, coefficient vector and row: the linear predictor is the sum over all terms of the partial dependence (the intercept contributing its coefficient); partial dependence depends only on the columns the term reads (own feature(s), by-variables); default grids have n (n^k) rows, are uniform between the edge knots with the by-variable one and other columns zero, row-major ij mesh for tensors. Tied to /repo by exact rational evaluation of linPred / partialDep / gridRow on exported coef_ and compiled terms of fitted models of 7 classes vs link(predict_mu), partial_dependence, generate_X_grid.',
-   note=NOTE_COMMON + 'The inverse-link step mu = g^-1(lp) is C07; rows with |lp| > 30 are not compared through link(mu) (saturation). General k-way tensor grid formula proved for k = 2 (digits formula is definitional in the model for all k).',
+   note=NOTE_COMMON + 'The inverse-link step mu = g^-1(lp) is C07; rows with |lp| > 30 are not compared through link(mu) (saturation). The k-way tensor grid is proved for every k (grid_tensor_general: column of marginal j = grid point number (r / n^(k-1-j)) % n; mesh_rows_distinct / mesh_covers: the n^k rows are the full Cartesian product, each combination once) under pairwise different marginal features.',
    technique='Lean 4 theorems (list induction, sum splitting) + exact-rational correspondence on fitted models',
    ref='7/C02'),
  'C08': dict(
